@@ -365,8 +365,14 @@ def compare(ctx, cases, res, drv, orc):
     groups = []
     for c in cases:
         groups.append((c.header(), c.ops))
+    # every fourth complex is reached through a history on one object (other values, one read of the order, the wanted values
+    # written through get_cell_data, lower star imposed again, initialize_filtration): "GR" for the implementation, the
+    # model is asked for the freshly built complex
+    igroups = [(("GR" + h[1:]) if (i % 4 == 3 and len(c.vals) > 1) else h, ops) for i, (c, (h, ops)) in enumerate(zip(cases, groups))]
+    for (h, _) in igroups:
+        res.count("construction:" + ("rebuilt-through-history" if h.startswith("GR") else "fresh"))
     env = {"C13_CERT_LIMIT": str(CERT_LIMIT[ctx.tier])}
-    obs = core.run_grouped_parallel(drv, groups)
+    obs = core.run_grouped_parallel(drv, igroups)
     exp = core.run_grouped_parallel(orc, groups, env=env)
     for c, (h, ops), (ho, ao), (he, ae) in zip(cases, groups, obs, exp):
         cls = c.cls
